@@ -204,4 +204,147 @@ HasClique(G, k) == \E S \in SUBSET (1..G.n) :
 HasIndep(G, k)  == \E S \in SUBSET (1..G.n) :
                       Cardinality(S) = k /\ \A u, v \in S : u # v => ~Adj(G, u, v)
 
+-----------------------------------------------------------------------------
+(* C03 families.  For the contradictions the documentation lists the axioms;*)
+(* Axioms_xxx is that list as a set of clauses, a clause being a set of     *)
+(* named literals <<sign, group, index...>> (sign = 1 | -1, group = position*)
+(* of the variable group in XxxGroups).                                     *)
+
+PosL(g, t) == <<1, g>> \o t
+NegL(g, t) == <<-1, g>> \o t
+
+\* --- (graph) ordering principle ---------------------------------------------
+\* x(u,v) reads "u precedes v".  non-smart: ordered pairs u # v; smart: pairs u < v.
+GOPGroups(G, smart) ==
+    IF smart THEN << {t \in (1..G.n) \X (1..G.n) : t[1] < t[2]} >>
+             ELSE << {t \in (1..G.n) \X (1..G.n) : t[1] # t[2]} >>
+GOPAxioms(G, total, smart, plant, knuth) ==
+    LET n == G.n
+        V == 1..n
+        X(u, v)  == PosL(1, <<u, v>>)
+        NX(u, v) == NegL(1, <<u, v>>)
+        Sm(u, v)  == IF u < v THEN X(u, v) ELSE NX(v, u)      \* "u precedes v" in the compact encoding
+        NonMin == {v \in V : ~(plant /\ v = n)}
+    IN  IF smart
+        THEN    {{Sm(u, v) : u \in Nbr(G, v)} : v \in NonMin}
+           \cup {{X(t[1], t[2]), X(t[2], t[3]), NX(t[1], t[3])} :
+                     t \in {w \in V \X V \X V : w[1] < w[2] /\ w[2] < w[3]}}
+           \cup {{NX(t[1], t[2]), NX(t[2], t[3]), X(t[1], t[3])} :
+                     t \in {w \in V \X V \X V : w[1] < w[2] /\ w[2] < w[3]}}
+        ELSE    {{X(u, v) : u \in Nbr(G, v)} : v \in NonMin}
+           \cup {{NX(t[1], t[2]), NX(t[2], t[3]), X(t[1], t[3])} :
+                     t \in {w \in V \X V \X V :
+                              /\ w[1] # w[2] /\ w[2] # w[3] /\ w[1] # w[3]
+                              /\ knuth = 2 => (w[2] > w[1] /\ w[2] > w[3])
+                              /\ knuth = 3 => (w[3] > w[1] /\ w[3] > w[2])}}
+           \cup {{NX(t[1], t[2]), NX(t[2], t[1])} : t \in {w \in V \X V : w[1] < w[2]}}
+           \cup (IF total THEN {{X(t[1], t[2]), X(t[2], t[1])} : t \in {w \in V \X V : w[1] < w[2]}}
+                          ELSE {})
+Connected(G) == G.n = 0 \/ ReachFrom(G, {1}) = 1..G.n
+
+\* --- pebbling / stone formulas on a DAG D (edges go upward) ------------------
+PebGroups(D) == << {<<v>> : v \in 1..D.n} >>
+IsSink(D, v) == Succ(D, v) = {}
+PebAxioms(D) ==
+       {{NegL(1, <<p>>) : p \in Pred(D, v)} \cup {PosL(1, <<v>>)} : v \in 1..D.n}
+  \cup {{NegL(1, <<v>>)} : v \in {w \in 1..D.n : IsSink(D, w)}}
+
+\* SparseStoneFormula(D, B): R(j) stones j in 1..B.R ; P(v,j), (v,j) in E(B)
+StoneGroups(D, B) == << {<<j>> : j \in 1..B.R}, EdgeSet(B) >>
+StoneAxioms(D, B) ==
+    LET R(j)  == PosL(1, <<j>>)     NR(j) == NegL(1, <<j>>)
+        P(v, j) == PosL(2, <<v, j>>)  NP(v, j) == NegL(2, <<v, j>>)
+        Choices(v, j) == {s \in [Pred(D, v) -> 1..B.R] :
+                             \A p \in Pred(D, v) : s[p] \in BNbrL(B, p) \ {j}}
+    IN     {{P(v, j) : j \in BNbrL(B, v)} : v \in 1..D.n}
+      \cup UNION { UNION { { {NP(p, s[p]) : p \in Pred(D, v)} \cup {NP(v, j)}
+                               \cup {NR(s[p]) : p \in Pred(D, v)} \cup {R(j)}
+                             : s \in Choices(v, j) }
+                         : j \in BNbrL(B, v) }
+                 : v \in 1..D.n }
+      \cup UNION { {{NP(v, j), NR(j)} : j \in BNbrL(B, v)} : v \in {w \in 1..D.n : IsSink(D, w)} }
+CompleteBip(L, R) == [L |-> L, R |-> R, edges |-> [k \in 1..(L * R) |-> <<((k - 1) \div R) + 1, ((k - 1) % R) + 1>>]]
+
+\* --- Thapen's CPLS(a, b, c), b and c powers of two ---------------------------
+\* G(i,x,y) ; bits of f_i(x) (i in 1..a) ; bits of u(x).  Unary indices start at 1,
+\* bit strings count from 0: f_i(x) = x' is the binary representation of x'-1.
+CPLSGroups(a, b, c) ==
+    << {<<i, x, y>> : i \in 1..a, x \in 1..b, y \in 1..c} >>
+    \o [i \in 1..a |-> {<<x, t>> : x \in 1..b, t \in 0..(CeilLog2(b) - 1)}]
+    \o << {<<x, t>> : x \in 1..b, t \in 0..(CeilLog2(c) - 1)} >>
+\* the clause that is false exactly when the bits of element x in group g spell j
+Forbid(g, x, j, nbits) == {<<(IF Bit(j, t) = 0 THEN 1 ELSE -1), g, x, t>> : t \in 0..(nbits - 1)}
+CPLSAxioms(a, b, c) ==
+    LET lb == CeilLog2(b)  lc == CeilLog2(c)
+        Gp(i, x, y) == PosL(1, <<i, x, y>>)   Gn(i, x, y) == NegL(1, <<i, x, y>>)
+    IN     {{Gn(1, 1, y)} : y \in 1..c}
+      \cup {Forbid(1 + t[1], t[2], t[3] - 1, lb) \cup {Gn(t[1] + 1, t[3], t[4]), Gp(t[1], t[2], t[4])} :
+                t \in (1..(a - 1)) \X (1..b) \X (1..b) \X (1..c)}
+      \cup {Forbid(a + 2, t[1], t[2] - 1, lc) \cup {Gp(a, t[1], t[2])} : t \in (1..b) \X (1..c)}
+
+\* --- Pitfall(v, d, ny, nz, k) on the drawn d-regular graph Gamma --------------
+RECURSIVE SortedEdgeSeq(_)
+SortedEdgeSeq(S) ==
+    IF S = {} THEN <<>>
+    ELSE LET e == CHOOSE x \in S : \A y \in S : x[1] < y[1] \/ (x[1] = y[1] /\ x[2] <= y[2])
+         IN  <<e>> \o SortedEdgeSeq(S \ {e})
+IsRegular(G, d) == \A v \in 1..G.n : Deg(G, v) = d
+\* clauses of the parity constraint "xor of lits = charge" over a set of items
+ParityClauses(Items, charge, Pos(_), Neg(_)) ==
+    {{Neg(e) : e \in T} \cup {Pos(e) : e \in Items \ T} :
+        T \in {U \in SUBSET Items : (Cardinality(U) % 2 = 1) # charge}}
+PitfallGroups(G, ny, nz, k) ==
+    [j \in 1..k |-> EdgeSet(G)]
+    \o << {<<j, i>> : j \in 1..k, i \in 1..ny},
+          {<<j, i>> : j \in 1..k, i \in 1..nz},
+          {<<j, i>> : j \in 1..k, i \in 1..(Cardinality(EdgeSet(G)) + nz)},
+          {<<j, i>> : j \in 1..k, i \in 1..3} >>
+PitfallAxioms(G, ny, nz, k) ==
+    LET nx == Cardinality(EdgeSet(G))
+        Es == SortedEdgeSeq(EdgeSet(G))
+        L  == nx + nz
+        Y(j, i) == PosL(k + 1, <<j, i>>)   NY(j, i) == NegL(k + 1, <<j, i>>)
+        Z(j, i) == PosL(k + 2, <<j, i>>)   NZ(j, i) == NegL(k + 2, <<j, i>>)
+        P(j, i) == PosL(k + 3, <<j, i>>)   NP(j, i) == NegL(k + 3, <<j, i>>)
+        A(j, i) == PosL(k + 4, <<j, i>>)   NA(j, i) == NegL(k + 4, <<j, i>>)
+        Inc(w) == {e \in EdgeSet(G) : e[1] = w \/ e[2] = w}
+        \* S_t : the e[j] variables in identifier order, then z(j,1..nz)
+        S(j, t)  == IF t <= nx THEN PosL(j, Es[t]) ELSE Z(j, t - nx)
+        NS(j, t) == IF t <= nx THEN NegL(j, Es[t]) ELSE NZ(j, t - nx)
+        Hard(j) == UNION { {C \cup {Z(j, i) : i \in 1..nz} :
+                              C \in ParityClauses(Inc(w), w = 1, LAMBDA e : PosL(j, e), LAMBDA e : NegL(j, e))}
+                         : w \in 1..G.n }
+        Pit(j)  == {{Y(j, t[1]), Y(j, t[2]), NP(j, t[3])} :
+                       t \in {w \in (1..ny) \X (1..ny) \X (1..L) : w[1] < w[2]}}
+        PipeClause(j, s, t) ==
+               {Y(j, s)} \cup {P(j, q) : q \in (1..L) \ {L + 1 - t}}
+            \cup {S(j, h) : h \in {g \in 1..(t - 1) : ~(t = L /\ g = nx + 1)}}
+            \cup {NS(j, t)}
+        Pipe(j) == {PipeClause(j, t[1], t[2]) : t \in (1..ny) \X (1..L)}
+        TailC(j) == UNION {{ {NA(j, 1), A(j, 3), NZ(j, t[2])}, {NA(j, 2), NA(j, 3), NZ(j, t[2])},
+                            {A(j, 1), NZ(j, t[2]), NY(j, t[1])}, {A(j, 2), NZ(j, t[2]), NY(j, t[1])} }
+                          : t \in (1..ny) \X (1..nz)}
+        Easy == {UNION {{NY(j, i), NY(j, i + 1)} : j \in 1..k} : i \in {h \in 1..(ny - 1) : h % 2 = 1}}
+    IN  UNION {Hard(j) \cup Pit(j) \cup Pipe(j) \cup TailC(j) : j \in 1..k} \cup Easy
+
+\* --- Ramsey number, van der Waerden, Pythagorean triples ---------------------
+RamGroups(N) == << {t \in (1..N) \X (1..N) : t[1] < t[2]} >>
+RamObj(s, k, N, E(_, _)) ==
+    /\ \A S \in Subsets(1..N, s) : \E u, v \in S : u < v /\ E(u, v)     \* no independent s-set
+    /\ \A S \in Subsets(1..N, k) : \E u, v \in S : u < v /\ ~E(u, v)    \* no k-clique
+\* arithmetic progressions of length len inside 1..N (length 1: the singletons)
+APs(N, len) == {{i + d * t : t \in 0..(len - 1)} :
+                    i \in 1..N, d \in 1..(IF len = 1 THEN 1 ELSE N)}
+               \cap SUBSET (1..N)
+VdwGroups(N, K) == IF Len(K) = 2 THEN << {<<i>> : i \in 1..N} >>
+                   ELSE << {<<i, c>> : i \in 1..N, c \in 1..Len(K)} >>
+\* Col(i, c): number i has colour c
+VdwColObj(N, K, Col(_, _)) ==
+    /\ \A i \in 1..N : ExactlyOne(1..Len(K), LAMBDA c : Col(i, c))
+    /\ \A c \in 1..Len(K) : \A ap \in APs(N, K[c]) : \E i \in ap : ~Col(i, c)
+PtnGroups(N) == << {<<i>> : i \in 1..N} >>
+PtnObj(N, Vv(_)) ==
+    \A x, y, z \in 1..N : (x < y /\ x * x + y * y = z * z) =>
+        ~((Vv(x) /\ Vv(y) /\ Vv(z)) \/ (~Vv(x) /\ ~Vv(y) /\ ~Vv(z)))
+
 =============================================================================
